@@ -1267,17 +1267,8 @@ impl TypedExpr {
             }
             ExprEnum::Cast(ty, expr) => {
                 let ty_expr = &expr.ty;
-                let mut expr = expr.compile(prg, env, circuit);
-                let size_after_cast = ty.size_in_bits_for_defs(prg, circuit.const_sizes());
-
-                match size_after_cast.cmp(&expr.len()) {
-                    std::cmp::Ordering::Equal => expr,
-                    std::cmp::Ordering::Less => expr[(expr.len() - size_after_cast)..].to_vec(),
-                    std::cmp::Ordering::Greater => {
-                        extend_to_bits(&mut expr, ty_expr, size_after_cast);
-                        expr
-                    }
-                }
+                let expr = expr.compile(prg, env, circuit);
+                cast_wires(expr, ty_expr, ty, prg, circuit.const_sizes())
             }
             ExprEnum::Range(from, to, num_ty) => {
                 let size = (to - from) as usize;
@@ -1802,6 +1793,56 @@ fn compile_checked_negation(
         circuit.push_panic_if(is_min, PanicReason::Overflow, meta);
     }
     circuit.push_negation_circuit(x)
+}
+
+/// Converts the wires of a value of type `from` to the type `to`, which is either a number type or
+/// (for values whose number types were left unspecified) an array / tuple of the same shape.
+fn cast_wires(
+    mut wires: Vec<usize>,
+    from: &Type,
+    to: &Type,
+    prg: &TypedProgram,
+    const_sizes: &HashMap<String, usize>,
+) -> Vec<usize> {
+    match (from, to) {
+        (
+            Type::Array(from_elem, _) | Type::ArrayConst(from_elem, _),
+            Type::Array(to_elem, _) | Type::ArrayConst(to_elem, _),
+        ) => {
+            let from_bits = from_elem.size_in_bits_for_defs(prg, const_sizes);
+            if from_bits == 0 {
+                return wires;
+            }
+            wires
+                .chunks(from_bits)
+                .flat_map(|elem| cast_wires(elem.to_vec(), from_elem, to_elem, prg, const_sizes))
+                .collect()
+        }
+        (Type::Tuple(from_fields), Type::Tuple(to_fields))
+            if from_fields.len() == to_fields.len() =>
+        {
+            let mut result = vec![];
+            let mut offset = 0;
+            for (from_field, to_field) in from_fields.iter().zip(to_fields) {
+                let from_bits = from_field.size_in_bits_for_defs(prg, const_sizes);
+                let field = wires[offset..offset + from_bits].to_vec();
+                result.extend(cast_wires(field, from_field, to_field, prg, const_sizes));
+                offset += from_bits;
+            }
+            result
+        }
+        _ => {
+            let size_after_cast = to.size_in_bits_for_defs(prg, const_sizes);
+            match size_after_cast.cmp(&wires.len()) {
+                std::cmp::Ordering::Equal => wires,
+                std::cmp::Ordering::Less => wires[(wires.len() - size_after_cast)..].to_vec(),
+                std::cmp::Ordering::Greater => {
+                    extend_to_bits(&mut wires, from, size_after_cast);
+                    wires
+                }
+            }
+        }
+    }
 }
 
 fn extend_to_bits(v: &mut Vec<usize>, ty: &Type, bits: usize) {
